@@ -1,188 +1,9 @@
 import Driver.Loop
-import Midgard.Model.DatasetOps
+import Driver.DatasetProto
 
-/-!
-Driver for C09.  One line = one whole history:
-
-  `c09 run <units> <op> | <op> | …`
-
-answers, per operation, `ok:<out>:<observation of the whole world>` or `ERR:<enum>` (the history
-stops at the first error), joined by ` || `.
-
-Encodings (no blanks inside a token): rows `r;r;r` (`[]` if none), a row `s,s,s`, a scalar
-`n<rat>` | `nan` | `t<hex>` | `b0` | `b1`; a path `a.b.c`; a reference `o<k>` | `f<d>:<path>` | `-`;
-an index `m0110` | `i1,-2`; the unit table `from>to=rat,…` or `-`.
--/
+/-! Driver for C09: `c09 run <units> <op> | <op> | …` (see `Driver/DatasetProto.lean`). -/
 namespace Driver.C09
-open Midgard.Proto Midgard.Dataset
-
-def parseKind? : String → Option Kind
-  | "bool" => some .bool | "float" => some .float | "text" => some .text
-  | "time" => some .time | "time_delta" => some .timeDelta | "sigma" => some .sigma
-  | "position" => some .position | "posvel" => some .posvel
-  | "position_delta" => some .positionDelta | "posvel_delta" => some .posvelDelta
-  | _ => none
-
-def showKind : Kind → String
-  | .bool => "bool" | .float => "float" | .text => "text" | .time => "time"
-  | .timeDelta => "time_delta" | .sigma => "sigma" | .position => "position" | .posvel => "posvel"
-  | .positionDelta => "position_delta" | .posvelDelta => "posvel_delta"
-
-def parseScalar? (s : String) : Option Scalar :=
-  if s == "nan" then some .nan
-  else if s == "b0" then some (.bool false)
-  else if s == "b1" then some (.bool true)
-  else if s.startsWith "n" then (parseRat? (s.drop 1).toString).map .num
-  else if s.startsWith "t" then (decodeHex? (s.drop 1).toString).map .txt
-  else none
-
-def showScalar : Scalar → String
-  | .num q => "n" ++ showRat q
-  | .nan => "nan"
-  | .txt s => "t" ++ encodeHex s
-  | .bool b => if b then "b1" else "b0"
-
-def parseRow? (s : String) : Option Row := (s.splitOn ",").mapM parseScalar?
-def parseRows? (s : String) : Option (List Row) :=
-  if s == "[]" then some [] else (s.splitOn ";").mapM parseRow?
-def showRow (r : Row) : String := ",".intercalate (r.map showScalar)
-def showRows (rs : List Row) : String := if rs.isEmpty then "[]" else ";".intercalate (rs.map showRow)
-
-def parsePath? (s : String) : Option Path := if s.isEmpty then none else some (s.splitOn ".")
-
-def parseRef? (s : String) : Option (Option Ref) :=
-  if s == "-" then some none
-  else if s.startsWith "o" then ((s.drop 1).toString.toNat?).map (fun k => some (.tab k))
-  else if s.startsWith "f" then
-    match (s.drop 1).toString.splitOn ":" with
-    | [d, p] => match d.toNat?, parsePath? p with
-      | some d, some p => some (some (.fld d p))
-      | _, _ => none
-    | _ => none
-  else none
-
-def parseIndex? (s : String) : Option Index :=
-  if s.startsWith "m" then
-    ((s.drop 1).toString.toList.mapM (fun c => if c == '1' then some true else if c == '0' then some false else none)).map .mask
-  else if s == "i" then some (.ints [])
-  else if s.startsWith "i" then (((s.drop 1).toString.splitOn ",").mapM String.toInt?).map .ints
-  else none
-
-def parseUnits? (s : String) : Option Units :=
-  if s == "-" then some [] else
-  (s.splitOn ",").mapM (fun e => match e.splitOn "=" with
-    | [ft, q] => match ft.splitOn ">", parseRat? q with
-      | [f, t], some q => some (f, t, q)
-      | _, _ => none
-    | _ => none)
-
-def parseOptStr (s : String) : Option String := if s == "-" then none else some s
-
-def parseFilters? (s : String) : Option (List (Path × Scalar)) :=
-  if s == "-" then some [] else
-  (s.splitOn "&").mapM (fun e => match e.splitOn "=" with
-    | [p, v] => match parsePath? p, parseScalar? v with
-      | some p, some v => some (p, v)
-      | _, _ => none
-    | _ => none)
-
-def parseNats? (s : String) : Option (List Nat) :=
-  if s == "-" then some [] else (s.splitOn ",").mapM String.toNat?
-
-def parseOp? : List String → Option Op
-  | ["new", d, n] => do pure (.new (← d.toNat?) (← n.toNat?))
-  | ["obj", k, ndim, cols, rows, o, r] => do
-    pure (.obj (← parseKind? k) (← ndim.toNat?) (← cols.toNat?) (← parseRows? rows) (← parseRef? o) (← parseRef? r))
-  | ["add", d, p, k, v, u, l] => do
-    let v ← parseRef? v
-    pure (.add (← d.toNat?) (← parsePath? p) (← parseKind? k) (← v) (parseOptStr u) (← l.toNat?))
-  | ["del", d, p] => do pure (.del (← d.toNat?) (← parsePath? p))
-  | ["subset", d, i] => do pure (.subset (← d.toNat?) (← parseIndex? i))
-  | ["extend", d, e] => do pure (.extend (← d.toNat?) (← e.toNat?))
-  | ["merge", d, es, sb] => do
-    pure (.merge (← d.toNat?) (← parseNats? es) (if sb == "-" then none else parsePath? sb))
-  | ["filter", d, fl] => do pure (.filterSubset (← d.toNat?) (← parseFilters? fl))
-  | ["unique", d, p] => do pure (.unique (← d.toNat?) (← parsePath? p))
-  | _ => none
-
-/-! ### Observation: the whole world with objects numbered in first-visit order -/
-
-def showOptUnit : Option (List String) → String
-  | none => "-"
-  | some us => "+".intercalate us
-
-/-- render object `o`; `seen` is the list of objects already numbered -/
-def renderObj (h : Heap) : Nat → Nat → List Nat → String × List Nat
-  | 0, _, seen => ("?", seen)
-  | fuel + 1, o, seen =>
-    match seen.idxOf? o with
-    | some i => (s!"#{i}", seen)
-    | none =>
-      let k := seen.length
-      let seen := seen ++ [o]
-      match h[o]? with
-      | none => ("!", seen)
-      | some ob =>
-        let (so, seen) := match ob.other with
-          | none => ("-", seen)
-          | some a => renderObj h fuel a seen
-        let (sr, seen) := match ob.refPos with
-          | none => ("-", seen)
-          | some a => renderObj h fuel a seen
-        (s!"#{k}\{{showKind ob.kind};{ob.ndim};{ob.cols};{showRows ob.rows}|o={so}|r={sr}}", seen)
-
-def renderField (h : Heap) : Field → List Nat → String × List Nat
-  | .leaf n k o no u l, seen =>
-    let (so, seen) := renderObj h (h.length + 1) o seen
-    (s!"L({n};{showKind k};{no};{showOptUnit u};{l};{so})", seen)
-  | .coll n no l fs, seen =>
-    let (sf, seen) := renderFields fs seen
-    (s!"C({n};{no};{l};[{sf}])", seen)
-where renderFields : List Field → List Nat → String × List Nat
-  | [], seen => ("", seen)
-  | f :: fs, seen =>
-    let (a, seen) := renderField h f seen
-    let (b, seen) := renderFields fs seen
-    (if b.isEmpty then a else a ++ "," ++ b, seen)
-
-def renderWorld (w : W) : String :=
-  let rec go : List (Option DS) → Nat → List Nat → List String
-    | [], _, _ => []
-    | none :: rest, i, seen => go rest (i + 1) seen
-    | some d :: rest, i, seen =>
-      let (sf, seen) := renderField.renderFields w.heap d.fields seen
-      s!"D{i}({d.numObs};[{sf}])" :: go rest (i + 1) seen
-  "".intercalate (go w.ds 0 [])
-
-def showErr : Err → String
-  | .index => "index" | .value => "value" | .unit => "unit" | .attribute => "attribute"
-  | .fieldExists => "fieldExists" | .fuel => "fuel" | .dangling => "dangling" | .unsupported => "unsupported"
-
-def showOut : Out → String
-  | .none => "-"
-  | .mask m => "m" ++ String.ofList (m.map (fun b => if b then '1' else '0'))
-  | .vals v => "v" ++ showRow v
-
-/-- split the token list at the `|` tokens -/
-def splitOps (ts : List String) : List (List String) :=
-  let (cur, acc) := ts.foldl (fun (p : List String × List (List String)) t =>
-    if t == "|" then ([], p.2 ++ [p.1]) else (p.1 ++ [t], p.2)) ([], [])
-  (acc ++ [cur]).filter (fun l => !l.isEmpty)
-
-/-- an operation prefixed with the token `q` (set-up) answers `ok:-:~` without rendering the world -/
-def runOps (w : W) : List (List String) → List String
-  | [] => []
-  | ts :: rest =>
-    let (quiet, ts) := match ts with
-      | "q" :: r => (true, r)
-      | r => (false, r)
-    match parseOp? ts with
-    | none => ["bad-op"]
-    | some op =>
-      match step w op with
-      | .error e => ["ERR:" ++ showErr e]
-      | .ok (w', out) =>
-        (if quiet then "ok:-:~" else s!"ok:{showOut out}:{renderWorld w'}") :: runOps w' rest
+open Midgard.Proto Midgard.Dataset Driver.DS
 
 def handle : List String → Option String
   | "c09" :: "run" :: units :: rest => do
